@@ -75,7 +75,7 @@ class ConcNamer:
                 base = r.choice([2, 3, 5, 7]) ** r.randint(1, 12) * r.choice([1, 2, 3, 4, 5, 6, 7, 8, 9, 10])
                 return max(0, base + r.choice([-1, 0, 1]))
             if name.endswith("_N"):
-                return r.choice([0, 1, 2, 3, 5, 8, 11, 13, 22]) if r else 5
+                return r.choice([0, 1, 2, 3, 4, 5, 6, 7, 8, 9, 10, 11, 12, 13, 16, 22]) if r else 5
             if "_S" in name:
                 return r.choice([1, 2, 3]) if r else 2
             if name in ("n", "t_i"):
